@@ -8,10 +8,12 @@ import OxiVerif.Model.ObjCanon
 /-!
 # Model.C30 — user-chosen resource names at the two emission sites and the three readers
 
-**Emission (what the code does — names are written RAW at both sites):**
+**Emission (what the code does — ESCAPED at the dictionary site since fix 16fac722, still RAW at
+the content site):**
 * dictionary site: `writer/pdf_writer/mod.rs` `write_object_value`, `Name` arm and dictionary
-  keys (`/` + the bytes of the Rust `String`) — that is `Model.serRaw` / `Model.ser`
-  (`Model/Serializer.lean`, shared with C09).  Page resources are assembled by
+  keys (`/` + `escape_pdf_name_bytes(name)`) — that is `Model.serRaw` / `Model.ser` with
+  `Model.escapeName` (`Model/Serializer.lean`, shared with C09; the pre-fix raw emission is kept
+  there as `serUnescaped`).  Page resources are assembled by
   `write_page_with_fonts` (`xobject_dict.set(name, Reference)`, `font_dict.set(font_name, …)`,
   `cs_dict`, `pat_dict`, `sh_dict`): `pageObj` below.
 * content site: `graphics/ops.rs` `serialize_ops`: `writeln!(out, "/{name} Do")`, `cs`, `CS`, `gs`,
@@ -29,8 +31,8 @@ import OxiVerif.Model.ObjCanon
   `Model/ContentTokenizer.lean` this property needs (that file belongs to C01/C21);
 * the independent strict reader `Spec.Syntax` (ISO 32000-1 §7.2–7.3, §7.8.2).
 
-**The repair's specification:** `escapeBody` (`#XX` for every byte outside `!`..`~`, for the
-delimiters and for `#`).
+**The repair's specification (content site):** `opNameEscaped` — the same `#XX` escaping
+(`Model.escapeName`) applied to operands.
 Import-free apart from OxiVerif's own import-free modules.
 -/
 namespace OxiVerif.C30
@@ -83,16 +85,13 @@ def SafeName (n : List Nat) : Bool := allB (fun b => Spec.Syntax.isRegular b && 
 def PrintableName (n : List Nat) : Bool :=
   allB (fun b => 33 ≤ b && b ≤ 126 && !Spec.Syntax.isDelim b && b != 35) n
 
-def needsEscape (b : Nat) : Bool := !(33 ≤ b && b ≤ 126) || Spec.Syntax.isDelim b || b == 35
+/-- the dictionary site since fix 16fac722 (`escape_pdf_name_bytes`, = `Model.escapeName`): every
+    byte outside `!`..`~`, every delimiter and `#` as `#XX`.  The same emission is the proposed
+    repair for the content site. -/
+def emitEscaped (n : List Nat) : List Nat := 47 :: escapeName n
 
-/-- the proposed emission: every byte outside `!`..`~`, every delimiter and `#` as `#XX` -/
-def escapeBody : List Nat → List Nat
-  | [] => []
-  | b :: r =>
-    if needsEscape b then 35 :: hexDigitUpper (b / 16 % 16) :: hexDigitUpper (b % 16) :: escapeBody r
-    else b :: escapeBody r
-
-def emitEscaped (n : List Nat) : List Nat := 47 :: escapeBody n
+/-- the content-site repair: `writeln!(out, "/{} <kw>", escape_pdf_name(name))` -/
+def opNameEscaped (n kw : List Nat) : List Nat := 47 :: (escapeName n ++ 32 :: (kw ++ [10]))
 
 /-! ## the library's content tokenizer (copy of the needed part of `Model/ContentTokenizer.lean`) -/
 
@@ -710,16 +709,11 @@ def specContentVerdict (content : List Nat) (k : Kind) (n n2 : List Nat) : Optio
 
 /-- which hypothesis of the partial theorem the name breaks (the finding classes) -/
 def defectClass (n : List Nat) : String :=
-  if n.any (fun b => Spec.Syntax.isWhite b || Spec.Syntax.isDelim b) then "ws-delim"
-  else if n.any (· == 35) then "hash"
-  else if n.any (fun b => 128 ≤ b) then "non-ascii"
-  else "none"
-
-def worstClass (a b : String) : String :=
-  if a == "ws-delim" || b == "ws-delim" then "ws-delim"
-  else if a == "hash" || b == "hash" then "hash"
-  else if a == "non-ascii" || b == "non-ascii" then "non-ascii"
-  else "none"
+  let fs : List String :=
+    (if n.any (fun b => Spec.Syntax.isWhite b || Spec.Syntax.isDelim b) then ["ws-delim"] else []) ++
+    (if n.any (· == 35) then ["hash"] else []) ++
+    (if n.any (fun b => 128 ≤ b) then ["non-ascii"] else [])
+  if fs.isEmpty then "none" else "+".intercalate fs
 
 /-! ## the model's answer and the oracle -/
 
@@ -753,7 +747,7 @@ def oracle (k : Kind) (n n2 : List Nat) (impl : String) : String :=
     | some ph, some ch, some lp, some lc, some rd =>
       match bytesOfHex? ph, bytesOfHex? ch with
       | some page, some content =>
-        let cls := if k == .img2 then worstClass (defectClass n) (defectClass n2) else defectClass n
+        let cls := if k == .img2 then defectClass (n ++ n2) else defectClass n
         let sites : List String :=
           (match specPageVerdict page k n n2 with | some s => [s] | none => []) ++
           (match specContentVerdict content k n n2 with | some s => [s] | none => []) ++
